@@ -96,7 +96,14 @@ class SgzCropper(SgzReader):
         header[56:60] = int_to_bytes(compressed_data_length_diskblocks)
         header[60:64] = int_to_bytes((len_xlines * len_ilines * 32) // 8)
         if self.file_version > SeismicZfpVersion("0.2.1"):
-            header[68:72] = int_to_bytes(len_xlines * len_ilines)
+            n_traces = len_xlines * len_ilines
+            if not self.structured:
+                # An irregular survey stays irregular: count the traces actually present in the box
+                self.get_unstructured_mask()
+                mask = self.mask.reshape((self.n_ilines, self.n_xlines))
+                n_traces = int(np.count_nonzero(mask[iline_index_range[0]:iline_index_range[1],
+                                                     xline_index_range[0]:xline_index_range[1]]))
+            header[68:72] = int_to_bytes(n_traces)
 
         # We need to inform the SEG-Y binary header what has happened to the trace length, otherwise
         # segyio will get all confused if attempting to read the cropped SGZ converted back to SEG-Y
@@ -194,7 +201,9 @@ class SgzCropper(SgzReader):
             new_sgz_file.write(header)
             new_sgz_file.write(compressed_bytes)
 
-            self.read_variant_headers()
+            # Footer arrays hold one value per grid position, zero at the holes of an irregular survey
+            self.clear_variant_headers()
+            self.read_variant_headers(include_padding=True)
             footer_offsets = []
             for k in self.stored_header_keys:
                 # Header words which duplicate another share its footer slot, write each slot once
@@ -209,3 +218,4 @@ class SgzCropper(SgzReader):
                     # Readers of these file versions expect each array padded to 512 bytes
                     header_bytes += bytes(-len(header_bytes) % 512)
                 new_sgz_file.write(header_bytes)
+            self.clear_variant_headers()
